@@ -355,9 +355,50 @@ class _ViewBlocks(ast.NodeTransformer):
         return node
 
 
+def _handler_aliases(tree: ast.Module) -> int:
+    """`except NAME:` where NAME is bound once, at module level, to a tuple of exception classes (or to one class) is the same as naming the classes in
+    the handler: the handler is rewritten to the tuple, so every analysis sees the classes"""
+    bound, count = {}, {}
+    for s_ in tree.body:
+        tgs = s_.targets if isinstance(s_, ast.Assign) else [s_.target] if isinstance(s_, ast.AnnAssign) and s_.value is not None else []
+        for t in tgs:
+            if isinstance(t, ast.Name):
+                count[t.id] = count.get(t.id, 0) + 1
+                v = s_.value
+                elts = v.elts if isinstance(v, ast.Tuple) else [v]
+                if elts and all(isinstance(e, (ast.Name, ast.Attribute)) and ast.unparse(e).split(".")[-1][:1].isupper() and
+                                (ast.unparse(e).endswith(("Error", "Exception", "Warning", "Interrupt", "Exit")) or ast.unparse(e).split(".")[-1] in ("StopIteration", "StopAsyncIteration")) for e in elts):
+                    bound[t.id] = v
+    # (rebound anywhere, or assigned inside a function through `global`: not an alias)
+    for n in ast.walk(tree):
+        if isinstance(n, ast.Global):
+            for g in n.names:
+                bound.pop(g, None)
+    bound = {k: v for k, v in bound.items() if count.get(k) == 1}
+    if not bound:
+        return 0
+    n_rw = 0
+    for n in ast.walk(tree):
+        if isinstance(n, ast.ExceptHandler) and n.type is not None:
+            parts = n.type.elts if isinstance(n.type, ast.Tuple) else [n.type]
+            if any(isinstance(x, ast.Name) and x.id in bound for x in parts):
+                new = []
+                for x in parts:
+                    if isinstance(x, ast.Name) and x.id in bound:
+                        v = bound[x.id]
+                        new += [ast.copy_location(ast.parse(ast.unparse(e), mode="eval").body, x) for e in (v.elts if isinstance(v, ast.Tuple) else [v])]
+                    else:
+                        new.append(x)
+                n.type = ast.copy_location(ast.Tuple(elts=new, ctx=ast.Load()), n.type) if len(new) > 1 else new[0]
+                n_rw += 1
+    return n_rw
+
+
 def desugar(tree: ast.Module) -> ast.Module:
     vb = _ViewBlocks()
     vb.visit(tree)
+    if _handler_aliases(tree):
+        ast.fix_missing_locations(tree)
     n_al = sum(_stable_alias_inline(c) for c in ast.walk(tree) if isinstance(c, ast.ClassDef))
     if n_al:
         ast.fix_missing_locations(tree)
